@@ -244,9 +244,9 @@ class Engine:
     def gen_config(self, rng, prop, tier):
         cfg = {
             "engine": NAME,
-            "steps": rng.choice([6, 10, 16, 22, 30]),
+            "steps": rng.choice([6, 10, 16, 22, 30, 45] if tier == "thorough" else [6, 10, 16, 22, 30]),
             "n": rng.choice([2, 2, 3]),
-            "max_handles": rng.randint(2, 6),
+            "max_handles": rng.randint(2, 8 if tier == "thorough" else 6),
             "callers": rng.randint(2, 4),
             "kinds": sorted(rng.sample(KINDS, rng.randint(1, 4))),
             "polyk": rng.choice([3, 4, 5]),
